@@ -96,24 +96,17 @@ Proof.
   auto.
 Qed.
 
-Lemma fprefix_states s : states_of (final_prefix s) = [].
-Proof.
-  unfold final_prefix. rewrite states_of_app. fold (closes_of (st_open s)). rewrite closes_states, app_nil_r.
-  induction (pred (length (st_watch s))); simpl; auto.
-Qed.
+Lemma fprefix_is_closes s : final_prefix s = closes_of (st_open s).
+Proof. reflexivity. Qed.
 
-Lemma fprefix_count f s : (forall h, f (AClose h) = false) -> f ASenderPanic = false -> count f (final_prefix s) = 0.
-Proof.
-  intros H1 H2. unfold final_prefix. rewrite count_app. fold (closes_of (st_open s)). rewrite closes_count by auto.
-  induction (pred (length (st_watch s))); simpl; auto. rewrite count_cons, H2. simpl. auto.
-Qed.
+Lemma fprefix_states s : states_of (final_prefix s) = [].
+Proof. rewrite fprefix_is_closes. apply closes_states. Qed.
+
+Lemma fprefix_count f s : (forall h, f (AClose h) = false) -> count f (final_prefix s) = 0.
+Proof. intros H1. rewrite fprefix_is_closes. apply closes_count; auto. Qed.
 
 Lemma fprefix_neutral s : forallb neutral (final_prefix s) = true.
-Proof.
-  unfold final_prefix. rewrite forallb_app. fold (closes_of (st_open s)).
-  assert (forallb neutral (closes_of (st_open s)) = true) as -> by (destruct (st_open s); reflexivity).
-  rewrite andb_true_r. induction (pred (length (st_watch s))); simpl; auto.
-Qed.
+Proof. rewrite fprefix_is_closes. destruct (st_open s); reflexivity. Qed.
 
 Ltac solve_word H1 :=
   rewrite ?states_of_app, ?phase_word_app; try rewrite H1; try reflexivity.
@@ -133,7 +126,7 @@ Proof.
     apply setup_block_C in ES as [S1 [S2 [S3 S4]]].
     destruct I as [H1 H2 H3 H4 H5 H6 H7 H8]. rewrite EPC in *. simpl in *.
     destruct err as [e|].
-    + destruct initial; inversion ST; subst; constructor; simpl;
+    + destruct initial; destruct e; inversion ST; subst; constructor; simpl;
         rewrite ?app_assoc, ?states_of_app, ?phase_word_app, ?count_app, ?S1, ?S2, ?S3, ?S4, ?app_nil_r, ?H1; simpl;
         rewrite ?count_cons, ?count_nil; simpl; auto; try lia; try discriminate.
     + inversion ST; subst; constructor; simpl;
@@ -174,34 +167,28 @@ Proof.
       specialize (TF s true). rewrite ST in TF. apply TF; auto.
   - (* PReload *)
     destruct I as [H1 H2 H3 H4 H5 H6 H7 H8]. rewrite EPC in *. simpl in H1, H2, H3, H4, H5, H6, H7, H8.
-    destruct (svc_blocked (live_gen s) s).
-    + inversion ST; subst. constructor; simpl; rewrite ?states_of_snoc_other, ?count_snoc_other by reflexivity; auto; try lia.
-    + destruct (svc_shutdown (live_gen s) (cfg_of o (live_gen s))) as [acts ok] eqn:ESW.
-      assert (acts = fst (svc_shutdown (live_gen s) (cfg_of o (live_gen s)))) as EA by now rewrite ESW.
-      assert (states_of acts = []) as S1 by (rewrite EA; apply sweep_states).
-      assert (forall f, (forall a, neutral a = false -> f a = false) -> (forall gg, f (ANotReady gg) = false) -> count f acts = 0) as S2
-          by (intros; rewrite EA; apply sweep_misc; auto).
-      destruct ok; inversion ST; subst; constructor; simpl;
-        rewrite ?app_assoc, ?states_of_app, ?phase_word_app, ?count_app, ?S1, ?app_nil_r, ?H1; simpl;
-        rewrite ?S2 by (try (intros []; simpl; congruence); reflexivity);
-        rewrite ?count_cons, ?count_nil; simpl; auto; try lia; try discriminate.
+    destruct (svc_shutdown (live_gen s) (cfg_of o (live_gen s))) as [acts ok] eqn:ESW.
+    assert (acts = fst (svc_shutdown (live_gen s) (cfg_of o (live_gen s)))) as EA by now rewrite ESW.
+    assert (states_of acts = []) as S1 by (rewrite EA; apply sweep_states).
+    assert (forall f, (forall a, neutral a = false -> f a = false) -> (forall gg, f (ANotReady gg) = false) -> count f acts = 0) as S2
+        by (intros; rewrite EA; apply sweep_misc; auto).
+    destruct ok; inversion ST; subst; constructor; simpl;
+      rewrite ?app_assoc, ?states_of_app, ?phase_word_app, ?count_app, ?S1, ?app_nil_r, ?H1; simpl;
+      rewrite ?S2 by (try (intros []; simpl; congruence); reflexivity);
+      rewrite ?count_cons, ?count_nil; simpl; auto; try lia; try discriminate.
   - (* PFinal *)
     destruct I as [H1 H2 H3 H4 H5 H6 H7 H8]. rewrite EPC in *. simpl in H1, H2, H3, H4, H5, H6, H7, H8.
     try fold (final_prefix s) in ST.
-    destruct (svc_blocked (live_gen s) s).
-    + inversion ST; subst. constructor; simpl;
-        rewrite ?app_assoc, ?states_of_app, ?phase_word_app, ?count_app, ?fprefix_states, ?app_nil_r, ?H1; simpl;
-        rewrite ?fprefix_count by reflexivity; rewrite ?count_cons, ?count_nil; simpl; auto; try lia.
-    + destruct (svc_shutdown (live_gen s) (cfg_of o (live_gen s))) as [acts ok] eqn:ESW.
-      assert (acts = fst (svc_shutdown (live_gen s) (cfg_of o (live_gen s)))) as EA by now rewrite ESW.
-      assert (states_of acts = []) as S1 by (rewrite EA; apply sweep_states).
-      assert (forall f, (forall a, neutral a = false -> f a = false) -> (forall gg, f (ANotReady gg) = false) -> count f acts = 0) as S2
-          by (intros; rewrite EA; apply sweep_misc; auto).
-      inversion ST; subst; constructor; simpl;
-        rewrite ?app_assoc, ?states_of_app, ?phase_word_app, ?count_app, ?fprefix_states, ?S1, ?app_nil_r, ?H1; simpl;
-        rewrite ?fprefix_count by reflexivity;
-        rewrite ?S2 by (try (intros []; simpl; congruence); reflexivity);
-        rewrite ?count_cons, ?count_nil; simpl; auto; try lia; try discriminate.
+    destruct (svc_shutdown (live_gen s) (cfg_of o (live_gen s))) as [acts ok] eqn:ESW.
+    assert (acts = fst (svc_shutdown (live_gen s) (cfg_of o (live_gen s)))) as EA by now rewrite ESW.
+    assert (states_of acts = []) as S1 by (rewrite EA; apply sweep_states).
+    assert (forall f, (forall a, neutral a = false -> f a = false) -> (forall gg, f (ANotReady gg) = false) -> count f acts = 0) as S2
+        by (intros; rewrite EA; apply sweep_misc; auto).
+    inversion ST; subst; constructor; simpl;
+      rewrite ?app_assoc, ?states_of_app, ?phase_word_app, ?count_app, ?fprefix_states, ?S1, ?app_nil_r, ?H1; simpl;
+      rewrite ?fprefix_count by reflexivity;
+      rewrite ?S2 by (try (intros []; simpl; congruence); reflexivity);
+      rewrite ?count_cons, ?count_nil; simpl; auto; try lia; try discriminate.
   - inversion ST; subst. now rewrite app_nil_r.
   - inversion ST; subst. now rewrite app_nil_r.
 Qed.
@@ -293,11 +280,9 @@ Proof.
       destruct (neutral_block tail (match err with None => map (pair (st_gen s)) (start_order (cfg_of o (st_gen s))) | Some _ => [] end) N) as [N3 N4].
       rewrite !no_overlap_app, !live_after_app, N1, N2, SL, SO, N3, N4. auto. }
     destruct err as [e|].
-    + destruct initial; inversion ST; subst.
-      * destruct (B [ASetState Closed; AReturn e] eq_refl) as [B1 B2].
-        eapply (InvL_app o s); eauto; unfold live_list; simpl; rewrite HL; auto.
-      * destruct (B [AReturn (RReload e)] eq_refl) as [B1 B2].
-        eapply (InvL_app o s); eauto; unfold live_list; simpl; rewrite HL; auto.
+    + destruct initial; destruct e; inversion ST; subst;
+        match goal with |- InvL _ _ (_ ++ _ ++ ?t) => destruct (B t eq_refl) as [B1 B2] end;
+        (eapply (InvL_app o s); eauto; unfold live_list; simpl; rewrite HL; auto).
     + inversion ST; subst. destruct (B [ASetState Running] eq_refl) as [B1 B2].
       eapply (InvL_app o s); eauto; unfold live_list; simpl; rewrite HL; auto.
   - (* PSelect *)
@@ -312,32 +297,27 @@ Proof.
   - (* PReload *)
     pose proof (C_live1 _ _ C) as HL. rewrite EPC in HL. destruct (HL eq_refl) as [g Hg].
     unfold live_gen in ST. rewrite Hg in ST.
-    destruct (svc_blocked g s).
-    + inversion ST; subst. (eapply (InvL_neutral o s); [reflexivity|try reflexivity|exact I]).
-    + destruct (svc_shutdown g (cfg_of o g)) as [acts ok] eqn:ESW.
-      assert (acts = fst (svc_shutdown g (cfg_of o g))) as EA by now rewrite ESW.
-      destruct ok; inversion ST; subst.
-      * destruct (sweep_from_live o g [ASetState Starting] eq_refl) as [B1 B2].
-        eapply (InvL_app o s); eauto; unfold live_list; simpl; rewrite Hg; auto.
-      * destruct (sweep_from_live o g [AReturn RErrRetire] eq_refl) as [B1 B2].
-        eapply (InvL_app o s); eauto; unfold live_list; simpl; rewrite Hg; auto.
+    destruct (svc_shutdown g (cfg_of o g)) as [acts ok] eqn:ESW.
+    assert (acts = fst (svc_shutdown g (cfg_of o g))) as EA by now rewrite ESW.
+    destruct ok; inversion ST; subst.
+    * destruct (sweep_from_live o g [ASetState Starting] eq_refl) as [B1 B2].
+      eapply (InvL_app o s); eauto; unfold live_list; simpl; rewrite Hg; auto.
+    * destruct (sweep_from_live o g [AReturn RErrRetire] eq_refl) as [B1 B2].
+      eapply (InvL_app o s); eauto; unfold live_list; simpl; rewrite Hg; auto.
   - (* PFinal *)
     pose proof (C_live1 _ _ C) as HL. rewrite EPC in HL. destruct (HL eq_refl) as [g Hg].
     unfold live_gen in ST. rewrite Hg in ST. try fold (final_prefix s) in ST.
-    destruct (svc_blocked g s).
-    + inversion ST; subst. (eapply (InvL_neutral o s); [reflexivity|try reflexivity|exact I]).
-      rewrite !forallb_app, fprefix_neutral. reflexivity.
-    + destruct (svc_shutdown g (cfg_of o g)) as [acts ok] eqn:ESW.
-      assert (acts = fst (svc_shutdown g (cfg_of o g))) as EA by now rewrite ESW.
-      inversion ST; subst.
-      match goal with |- InvL _ _ (_ ++ ?p ++ _ ++ ?t) => 
-        destruct (sweep_from_live o g t eq_refl) as [B1 B2];
-        assert (forallb neutral p = true) as NP by (rewrite forallb_app, fprefix_neutral; reflexivity);
-        destruct (neutral_block p (live_list o s) NP) as [N1 N2]
-      end.
-      eapply (InvL_app o s); eauto.
-      * rewrite live_after_app, N1. unfold live_list at 1. rewrite Hg. rewrite B1. reflexivity.
-      * rewrite no_overlap_app, N2, N1. unfold live_list. rewrite Hg. exact B2.
+    destruct (svc_shutdown g (cfg_of o g)) as [acts ok] eqn:ESW.
+    assert (acts = fst (svc_shutdown g (cfg_of o g))) as EA by now rewrite ESW.
+    inversion ST; subst.
+    match goal with |- InvL _ _ (_ ++ ?p ++ _ ++ ?t) => 
+      destruct (sweep_from_live o g t eq_refl) as [B1 B2];
+      assert (forallb neutral p = true) as NP by (rewrite forallb_app, fprefix_neutral; reflexivity);
+      destruct (neutral_block p (live_list o s) NP) as [N1 N2]
+    end.
+    eapply (InvL_app o s); eauto.
+    * rewrite live_after_app, N1. unfold live_list at 1. rewrite Hg. rewrite B1. reflexivity.
+    * rewrite no_overlap_app, N2, N1. unfold live_list. rewrite Hg. exact B2.
   - inversion ST; subst. now rewrite app_nil_r.
   - inversion ST; subst. now rewrite app_nil_r.
 Qed.
@@ -508,7 +488,7 @@ Proof.
           destruct (shape_own_start _ _ _ _ SH c) as [_ X]. apply X. lia.
         + destruct (shape_other _ _ _ _ SH g c NE) as [O1 O2]. rewrite O1 in H. apply H7. lia. }
     destruct err as [e|].
-    + destruct initial; inversion ST; subst; apply K; auto.
+    + destruct initial; destruct e; inversion ST; subst; apply K; auto.
     + inversion ST; subst. apply K; auto.
   - (* PSelect *)
     assert (InvN o s (log ++ [])) as I0 by now rewrite app_nil_r.
@@ -526,32 +506,27 @@ Proof.
   - (* PReload *)
     pose proof (C_live1 _ _ C) as HL. rewrite EPC in HL. destruct (HL eq_refl) as [g Hg].
     unfold live_gen in ST. rewrite Hg in ST.
-    destruct (svc_blocked g s).
-    + inversion ST; subst. eapply (InvN_neutral o s); eauto; apply neutral_counts; reflexivity.
-    + destruct (svc_shutdown g (cfg_of o g)) as [acts ok] eqn:ESW.
-      assert (acts = fst (svc_shutdown g (cfg_of o g))) as EA by now rewrite ESW.
-      destruct ok; inversion ST; subst.
-      * destruct (sweep_tail_counts o g [ASetState Starting] eq_refl) as [B1 B2].
-        eapply (InvN_sweep o s); eauto.
-      * destruct (sweep_tail_counts o g [AReturn RErrRetire] eq_refl) as [B1 B2].
-        eapply (InvN_sweep o s); eauto.
+    destruct (svc_shutdown g (cfg_of o g)) as [acts ok] eqn:ESW.
+    assert (acts = fst (svc_shutdown g (cfg_of o g))) as EA by now rewrite ESW.
+    destruct ok; inversion ST; subst.
+    * destruct (sweep_tail_counts o g [ASetState Starting] eq_refl) as [B1 B2].
+      eapply (InvN_sweep o s); eauto.
+    * destruct (sweep_tail_counts o g [AReturn RErrRetire] eq_refl) as [B1 B2].
+      eapply (InvN_sweep o s); eauto.
   - (* PFinal *)
     pose proof (C_live1 _ _ C) as HL. rewrite EPC in HL. destruct (HL eq_refl) as [g Hg].
     unfold live_gen in ST. rewrite Hg in ST. try fold (final_prefix s) in ST.
-    destruct (svc_blocked g s).
-    + inversion ST; subst. eapply (InvN_neutral o s); eauto; apply neutral_counts;
-      rewrite !forallb_app, fprefix_neutral; reflexivity.
-    + destruct (svc_shutdown g (cfg_of o g)) as [acts ok] eqn:ESW.
-      assert (acts = fst (svc_shutdown g (cfg_of o g))) as EA by now rewrite ESW.
-      inversion ST; subst.
-      match goal with |- InvN _ _ (_ ++ ?p ++ _ ++ ?t) =>
-        destruct (sweep_tail_counts o g t eq_refl) as [B1 B2];
-        assert (forallb neutral p = true) as NP by (rewrite forallb_app, fprefix_neutral; reflexivity);
-        pose proof (neutral_counts p NP) as NC
-      end.
-      eapply (InvN_sweep o s); eauto.
-      * intros g' c. destruct (NC g' c) as [X1 X2]. rewrite count_app, X1, B1. reflexivity.
-      * intros g' c. destruct (NC g' c) as [X1 X2]. rewrite count_app, X2, B2. reflexivity.
+    destruct (svc_shutdown g (cfg_of o g)) as [acts ok] eqn:ESW.
+    assert (acts = fst (svc_shutdown g (cfg_of o g))) as EA by now rewrite ESW.
+    inversion ST; subst.
+    match goal with |- InvN _ _ (_ ++ ?p ++ _ ++ ?t) =>
+      destruct (sweep_tail_counts o g t eq_refl) as [B1 B2];
+      assert (forallb neutral p = true) as NP by (rewrite forallb_app, fprefix_neutral; reflexivity);
+      pose proof (neutral_counts p NP) as NC
+    end.
+    eapply (InvN_sweep o s); eauto.
+    * intros g' c. destruct (NC g' c) as [X1 X2]. rewrite count_app, X1, B1. reflexivity.
+    * intros g' c. destruct (NC g' c) as [X1 X2]. rewrite count_app, X2, B2. reflexivity.
   - inversion ST; subst. now rewrite app_nil_r.
   - inversion ST; subst. now rewrite app_nil_r.
 Qed.
